@@ -11,7 +11,7 @@ from mc.runner import Acc, jsonable
 
 ID = 'C07'
 LEVEL = 'model_checking'
-RULE = ('all ordered pairs of workloads {iterative (3,1e-9), iterative (50,0.1), array 2x2, array 3x1, plain chain, '
+RULE = ('(two threads loading workbook FILES with date cells, every schedule with <= 2 preemptions at the source lines of the openpyxl wrapper, appended at the end) all ordered pairs of workloads {iterative (3,1e-9), iterative (50,0.1), array 2x2, array 3x1, plain chain, '
         'set_value+evaluate, trim_graph, from_file of a cycles model, a failed iterative evaluation followed by a healthy one} on two real threads (each building its own '
         'compiler on that thread) x {never-used threads, warmed-up threads, threads started in a copied contextvars context} x every schedule with <= 2 preemptions at '
         'cell-evaluation points (entry of _evaluate/_evaluate_range; thorough: also every method of the two thread-local '
@@ -292,6 +292,87 @@ def work(job):
     return acc.result()
 
 
+def work_dates(job):
+    """two threads each LOAD a workbook file holding date cells and evaluate it: pycel swaps openpyxl's date conversion
+    (a process-wide function) while it reads cells, so the reads of one thread must not see the other's swap-back.
+    Scheduling points: every source line of ExcelOpxWrapper.load / get_range; every schedule with <= 2 preemptions
+    (sharded by the first one).  A lock the library holds around the swap is replaced by a cooperative stand-in."""
+    shard, nshards = job
+    import datetime
+    import importlib
+    from openpyxl import Workbook
+    acc = Acc()
+    tmp = tempfile.mkdtemp(prefix='c07d_')
+    holder = [None]
+    xw = importlib.import_module('pycel.excelwrapper')
+    saved_lock = getattr(xw, '_FROM_EXCEL_LOCK', None)
+    try:
+        paths = []
+        for name, day in (('a', 2), ('b', 9)):
+            wb = Workbook()
+            ws = wb.active
+            ws.title = 'S'
+            ws['A1'] = datetime.datetime(2020, 1, day)
+            ws['B1'] = '=A1+1'
+            ws['A2'] = 5
+            ws['B2'] = '=A2*2+YEAR(A1)'
+            pth = os.path.join(tmp, f'dates_{name}.xlsx')
+            wb.save(pth)
+            paths.append(pth)
+
+        def workload(pth):
+            def fn():
+                from pycel.excelcompiler import ExcelCompiler
+                m = ExcelCompiler(filename=pth)
+                return [tagged(m.evaluate('S!B1')), tagged(m.evaluate('S!B2')), tagged(m.evaluate('S!A1'))]
+            return fn
+        refs = [workload(p)() for p in paths]
+        if saved_lock is not None:
+            xw._FROM_EXCEL_LOCK = sched.CoopLock(holder)
+
+        def local(frame, event, arg):
+            if event == 'line':
+                s = holder[0]
+                if s is not None:
+                    s.point(f'{frame.f_code.co_name}:{frame.f_lineno}')
+            return local
+
+        def tracer(frame, event, arg):
+            if event == 'call' and frame.f_code.co_qualname in ('ExcelOpxWrapper.load', 'ExcelOpxWrapper.get_range'):
+                return local
+            return None
+
+        def run_schedule(prefix):
+            s = sched.Sched(prefix)
+            holder[0] = s
+            s.out = s.run(workload(paths[0]), workload(paths[1]), tracer=tracer)
+            holder[0] = None
+            return s
+
+        def on_result(prefix, s):
+            acc.add('transitions', s.k)
+            if prefix:
+                acc.add('distinct_nontrivial')
+            for tid in (0, 1):
+                o = s.out[tid]
+                case = dict(kind='schedule', pair='dates|dates', warm=False, fine='dates', schedule=list(prefix), npre=len(prefix), thread=tid)
+                if o[0] != 'ok':
+                    acc.violation(dict(case, verdict='raised', exc=o[1]), f'dates|dates schedule {prefix}: thread {tid} raised {o[1]}: {o[2]}')
+                elif o[1] != refs[tid]:
+                    acc.violation(dict(case, verdict='differs', observed=jsonable(o[1]), expected=jsonable(refs[tid])),
+                                  f'dates|dates schedule {prefix}: thread {tid} got {o[1]} but alone it gets {refs[tid]}')
+        n = sched.explore(run_schedule, 2, on_result, first=(shard, nshards))
+        acc.add('evaluations', n)
+        acc.add('states', n)
+        if shard == 0:
+            acc.add('pairs')
+    finally:
+        if saved_lock is not None:
+            xw._FROM_EXCEL_LOCK = saved_lock
+        shutil.rmtree(tmp, ignore_errors=True)
+    return acc.result()
+
+
 def run(ctx):
     jobs = []
     pairs = list(itertools.product(WORKLOADS, repeat=2))
@@ -319,6 +400,7 @@ def run(ctx):
                     jobs.append((n0, n1, warm, 1, False, None))
     jobs.sort(key=lambda j: -j[3])
     ctx.pmap(work, jobs, timeout=6000)
+    ctx.pmap(work_dates, [(k, 16) for k in range(16)], timeout=6000)
     ctx.counts['traces_validated_against_impl'] = ctx.counts.get('evaluations', 0)
     ctx.extra['workloads'] = WORKLOADS
     ctx.extra['preemption_bound'] = ('1 for all 128 pair x warm combinations, 2 for the 16 iterative/array pairs' if not ctx.thorough
@@ -327,6 +409,12 @@ def run(ctx):
 
 
 def replay(case):
+    if case.get('fine') == 'dates':
+        hits = []
+        for k in range(16):
+            r = work_dates((k, 16))
+            hits += [m for c, m in r['violations'] if c.get('schedule') == case.get('schedule') and c.get('thread') == case.get('thread')]
+        return bool(hits), '\n'.join(hits[:2]) or 'no violation'
     n0, n1 = case['pair'].split('|')
     acc = Acc()
     tmp = tempfile.mkdtemp(prefix='c07r_')
